@@ -61,10 +61,16 @@ theorem ba2intS_eq (bs : Bits) : Py.ba2intS? bs = SOp.ba2intS bs := by
 
 /-! ### TvmBitarray.__delitem__ with its underflow check is `delBits` -/
 
+theorem src_check_underflow (n : Int) (bits : Bits) :
+    TvmBitarray_check_underflow n bits = (bits, if ((bits.length : Nat) : Int) < n then none else some ()) := by
+  unfold TvmBitarray_check_underflow
+  (repeat' split) <;> first | rfl | (exfalso; omega)
+
 theorem src_delitem_slice (n : Nat) (bits : Bits) :
     TvmBitarray_delitem_slice none (some n) bits =
       if n = 0 then (bits, some ()) else if bits.length < n then (bits, none) else (bits.drop n, some ()) := by
-  unfold TvmBitarray_delitem_slice TvmBitarray_check_underflow Py.optOr Py.delSlice Py.bindS
+  unfold TvmBitarray_delitem_slice Py.optOr Py.delSlice Py.bindS
+  simp only [src_check_underflow]
   by_cases h0 : n = 0
   · subst h0; simp
   · by_cases h : bits.length < n
@@ -84,7 +90,8 @@ theorem src_del_eq (n : Nat) (s : Py.SliceSt R) :
 
 theorem src_delitem_nat (bits : Bits) :
     TvmBitarray_delitem_nat 0 bits = match bits with | [] => ([], none) | _ :: rest => (rest, some ()) := by
-  unfold TvmBitarray_delitem_nat TvmBitarray_check_underflow Py.delAt? Py.bindS Py.bindO
+  unfold TvmBitarray_delitem_nat Py.delAt? Py.bindS Py.bindO
+  simp only [src_check_underflow]
   cases bits with
   | nil => simp
   | cons b rest =>
@@ -99,6 +106,12 @@ theorem src_skip_bits_eq (n : Nat) (s : Py.SliceSt R) : viewR id (skip_bits n s)
   rw [bindS_retU]
   exact src_del_eq n s
 
+/-- the advance of a consuming read: `del self.bits[:n]` or `self.skip_bits(n)` (tried in this order) -/
+macro "src_del_step " n:term:max s:term:max : tactic =>
+  `(tactic| first
+    | refine viewR_bindS id _ _ _ _ _ _ (src_del_eq $n $s) fun s2 _ => ?_
+    | refine viewR_bindS id _ _ _ _ _ _ (src_skip_bits_eq $n $s) fun s2 _ => ?_)
+
 theorem src_preload_bits_eq (n : Nat) (s : Py.SliceSt R) : viewR id (preload_bits n s) = SOp.peekBits n (view s) := by
   unfold preload_bits SOp.peekBits viewR view; simp
 
@@ -106,7 +119,7 @@ theorem src_load_bits_eq (n : Nat) (s : Py.SliceSt R) : viewR id (load_bits n s)
   unfold load_bits SOp.loadBits
   simp only [bind_eq, pure_eq]
   refine viewR_bindS id id _ _ _ _ _ (src_preload_bits_eq n s) fun s1 bs => ?_
-  refine viewR_bindS id id _ _ _ _ _ (src_del_eq n s1) fun s2 _ => ?_
+  src_del_step n s1
   rfl
 
 theorem src_preload_uint_eq (n : Nat) (s : Py.SliceSt R) :
@@ -121,7 +134,7 @@ theorem src_load_uint_eq (n : Nat) (s : Py.SliceSt R) :
   unfold load_uint SOp.loadUint
   simp only [bind_eq, pure_eq]
   refine viewR_bindS _ _ _ _ _ _ _ (src_preload_uint_eq n s) fun s1 v => ?_
-  refine viewR_bindS id _ _ _ _ _ _ (src_del_eq n s1) fun s2 _ => ?_
+  src_del_step n s1
   rfl
 
 theorem src_preload_int_eq (n : Nat) (s : Py.SliceSt R) : viewR id (preload_int n s) = SOp.preloadInt n (view s) := by
@@ -134,7 +147,7 @@ theorem src_load_int_eq (n : Nat) (s : Py.SliceSt R) : viewR id (load_int n s) =
   unfold load_int SOp.loadInt
   simp only [bind_eq, pure_eq]
   refine viewR_bindS id id _ _ _ _ _ (src_preload_int_eq n s) fun s1 v => ?_
-  refine viewR_bindS id id _ _ _ _ _ (src_del_eq n s1) fun s2 _ => ?_
+  src_del_step n s1
   rfl
 
 theorem src_preload_bytes_eq (n : Nat) (s : Py.SliceSt R) : viewR id (preload_bytes n s) = SOp.preloadBytes n (view s) := by
@@ -145,7 +158,7 @@ theorem src_load_bytes_eq (n : Nat) (s : Py.SliceSt R) : viewR id (load_bytes n 
   unfold load_bytes SOp.loadBytes
   simp only [bind_eq, pure_eq]
   refine viewR_bindS id id _ _ _ _ _ (src_preload_bytes_eq n s) fun s1 v => ?_
-  refine viewR_bindS id id _ _ _ _ _ (src_del_eq (n * 8) s1) fun s2 _ => ?_
+  src_del_step (n * 8) s1
   rfl
 
 /-- a bit: the regenerated code returns the int `0 / 1`, the model the Bool -/
